@@ -102,9 +102,27 @@ deriving DecidableEq, Repr
 structure Sub where
   path : String
   kind : SubKind := .cfg
-  text : Outcome            -- serialise (cfg) / get_content (content): fault point
+  /-- kind cfg: `dump_using_format` of the raw sub-config, or its `__orig__` text: fault point -/
+  text : Outcome := .text ""
+  /-- kind content: the file whose content is copied; it is read AFTER the destination was opened -/
+  src : String := ""
+  /-- kind content: fault point of `val.get_content()` -/
+  readOk : Bool := true
   wr   : Wr := {}
 deriving DecidableEq, Repr
+
+/-- `val.get_content()` evaluated on the files as they are once the destination has been opened -/
+def readSrc (fs1 : FS) (s : Sub) : Outcome :=
+  if !s.readOk then .fail .os
+  else match fs1.get s.src with
+    | some t => .text t
+    | none => .fail .os
+
+/-- the text a sub-file step tries to write, given the files at the start of the step -/
+def Sub.written (s : Sub) (fs : FS) : Outcome :=
+  match s.kind with
+  | .cfg => s.text
+  | .content => readSrc (fs.put s.path "") s
 
 def subStep (env : Env) (ow : Bool) (fs : FS) (s : Sub) : Result :=
   if !pathFc env s.path then (.error .path, fs)
@@ -114,7 +132,7 @@ def subStep (env : Env) (ow : Bool) (fs : FS) (s : Sub) : Result :=
       match s.text with
       | .fail e => (.error e, fs)
       | .text t => writeFile fs s.path t s.wr
-    | .content => openThenWrite fs s.path s.text s.wr
+    | .content => openThenWrite fs s.path (readSrc (fs.put s.path "") s) s.wr
 
 /-- the loop of `save_paths` -/
 def saveSubs (env : Env) (ow : Bool) : FS → List Sub → Result
